@@ -2211,6 +2211,259 @@ def rule_name_readers(wntr, inst, R):
     return sorted(out)
 
 
+# =================================================================================================== in-place mutation (round 5)
+
+INPLACE_METHODS = MUTATORS | {"add", "discard", "setdefault", "popitem", "fill", "resize", "put", "itemset", "move_to_end"}
+
+
+def _getter_aliases(cls, attr, R):
+    """the property / plain attribute `attr` hands out the STORED container itself (True) or a copy / computed value (False)"""
+    p_ = R._prop(cls, attr)
+    if p_ is None:
+        for k in cls.__mro__:
+            if attr in k.__dict__ and inspect.isfunction(k.__dict__[attr]):
+                return False   # a method call result
+        return True            # plain instance attribute
+    fn = _func_ast(p_.fget)
+    rets = [m for m in ast.walk(fn) if isinstance(m, ast.Return) and m.value is not None]
+    for r in rets:
+        v = r.value
+        if isinstance(v, ast.Attribute) or isinstance(v, ast.Subscript) or isinstance(v, ast.Name):
+            return True    # return self._x / self._reg[key] / a local that may alias
+    return False
+
+
+def in_place_mutations(wntr, inst, R):
+    """{slot: set(evidence)}: in-place mutators (method calls in INPLACE_METHODS, subscript stores / deletes, augmented assignments,
+    `out=` arguments) in the run-time closure of both simulators and in the element methods it calls, applied to an expression rooted at
+    a model object (loop variables over wn iterators, get_* results, wn / self._wn, `self` of element / control / condition / action
+    methods, untyped roots by hasattr reflection) or to a local alias of such an expression whose last getter returns the stored
+    container itself"""
+    S = WriteScanner(wntr, inst, R)
+    out = {}
+    ALL = ELEMENT_CLASSES + CONTROL_CLASSES + ["Pattern", "Curve", "Source", "WaterNetworkModel"]
+    extra = {"TimeSeries": wntr.network.elements.TimeSeries, "Demands": wntr.network.elements.Demands}
+    ct = _parse("wntr/network/controls.py")
+    cbases = _class_bases(ct)
+    action_family = set(c for c in cbases if _derives(cbases, c, "BaseControlAction"))
+    todo = ["BaseControlAction"]
+    while todo:   # the bases of BaseControlAction (Subject) are part of every action object
+        c = todo.pop()
+        for b in cbases.get(c, []):
+            if b and b not in action_family and b in cbases:
+                action_family.add(b)
+                todo.append(b)
+
+    def add(c, f, w):
+        out.setdefault((c, f), set()).add(w)
+
+    def mutable_on_zoo(c, path):
+        o = inst.get(c)
+        try:
+            for part in path:
+                o = getattr(o, part)
+        except Exception:
+            return True
+        import numpy as np
+        return o is None or isinstance(o, (list, dict, set, np.ndarray)) or hasattr(o, "__setitem__") or type(o).__name__ in ("OrderedSet", "Demands")
+
+    def slots_of(chain, lookup, kind, self_classes, line):
+        """slots designated by a rooted chain [root, a1, ..., ak] (the container is what a_k holds), or [] when not model-rooted"""
+        root, names = chain[0], chain[1:]
+        if not names:
+            return []
+        res = []
+        if root == "self":
+            if kind == "internal":
+                if len(names) >= 2 and ".".join(["self", names[0]]) in WN_NAMES:
+                    names = names[1:]
+                    for f in R._path(type(inst["WaterNetworkModel"]), names[:2], 0) if names else []:
+                        res.append(("WaterNetworkModel", f))
+                    return res
+                names = names[1:]      # self.<holder>.<attr>: the holder may be a model object
+                if not names:
+                    return []
+                root_classes = ALL
+            elif kind == "element":
+                root_classes = self_classes
+            elif kind in ("control", "condition", "action"):
+                pre = {"control": "", "condition": "_condition.", "action": None}[kind]
+                for c in CONTROL_CLASSES:
+                    if kind == "action":
+                        res += [(c, "_then_actions." + names[0]), (c, "_else_actions." + names[0])]
+                    else:
+                        res.append((c, pre + names[0]))
+                return res
+            elif kind == "wn":
+                root_classes = ["WaterNetworkModel"]
+            else:
+                return []
+        else:
+            what = lookup(root, line)
+            if what == "fresh":
+                return []
+            if what == "wn" or root in WN_NAMES:
+                root_classes = ["WaterNetworkModel"]
+            elif isinstance(what, list):
+                root_classes = what
+            else:
+                root_classes = ALL
+        last = names[-1]
+        if len(names) == 1:
+            cands = [c for c in root_classes if c in inst and hasattr(inst[c], last)]
+        else:
+            cands = [c for c in ALL if c in inst and hasattr(inst[c], last)]   # the intermediate object's class: by reflection on the attribute name
+        for c in cands:
+            if not _getter_aliases(type(inst[c]), last, R) or not mutable_on_zoo(c, [last]):
+                continue
+            for f in R.getter_storage(type(inst[c]), last):
+                res.append((c, f.split(".")[0] if len(names) == 1 else f))
+        for nm, k in extra.items():
+            if len(names) >= 2 and hasattr(k, last) and isinstance(getattr(k, last, None), property) and _getter_aliases(k, last, R):
+                pass   # TimeSeries properties return scalars / names: nothing to mutate
+        return res
+
+    def aml_roots(rel):
+        """names whose attributes are bound to aml containers in that module (`m.flow = aml.VarDict()`): the solver model, not the network"""
+        def make():
+            out_ = set()
+            for m in ast.walk(_parse(rel)):
+                if isinstance(m, ast.Assign) and isinstance(m.value, ast.Call) and isinstance(m.value.func, ast.Attribute) \
+                        and isinstance(m.value.func.value, ast.Name) and m.value.func.value.id == "aml":
+                    for t_ in m.targets:
+                        if isinstance(t_, ast.Attribute) and isinstance(t_.value, ast.Name):
+                            out_.add(t_.value.id)
+            return out_
+        return _memo(("aml_roots", rel), make)
+
+    def scan(fn, where, kind, self_classes=None):
+        rel = where.split(":", 1)[0]
+        not_model = aml_roots("wntr/" + rel) if rel.startswith("sim/") else set()
+        lookup0 = S._env(fn, None)
+        lookup = lambda nm, line: ("fresh" if nm in not_model else lookup0(nm, line))
+        aliases = {}   # local name -> (chain, line)
+        for m in ast.walk(fn):
+            if isinstance(m, ast.Assign) and len(m.targets) == 1 and isinstance(m.targets[0], ast.Name) and isinstance(m.value, (ast.Attribute, ast.Subscript)):
+                ch = _chain(m.value)
+                if ch and len(ch) >= 2:
+                    aliases.setdefault(m.targets[0].id, []).append((ch, m.lineno))
+
+        def designated(expr, line):
+            ch = _chain(expr)
+            if not ch:
+                return []
+            if len(ch) == 1:
+                best = [a for a in aliases.get(ch[0], []) if a[1] <= line]
+                if not best:
+                    return []
+                ch2, l2 = max(best, key=lambda a: a[1])
+                return slots_of(ch2, lookup, kind, self_classes, l2)
+            return slots_of(ch, lookup, kind, self_classes, line)
+
+        for m in ast.walk(fn):
+            hits, how = [], None
+            if isinstance(m, ast.Call) and isinstance(m.func, ast.Attribute) and m.func.attr in INPLACE_METHODS:
+                hits, how = designated(m.func.value, m.lineno), ".%s()" % m.func.attr
+            elif isinstance(m, ast.Call):
+                for k in m.keywords:
+                    if k.arg == "out":
+                        hits, how = designated(k.value, m.lineno), "out="
+            if isinstance(m, ast.Subscript) and isinstance(m.ctx, (ast.Store, ast.Del)):
+                hits, how = designated(m.value, m.lineno), "[...] ="
+            if isinstance(m, ast.AugAssign) and isinstance(m.target, (ast.Subscript, ast.Name)):
+                tgt = m.target.value if isinstance(m.target, ast.Subscript) else m.target
+                if isinstance(m.target, ast.Subscript) or m.target.id in aliases:
+                    hits, how = designated(tgt, m.lineno), "op="
+            for (c, f) in hits:
+                add(c, f, "%s:%d %s" % (where, m.lineno, how))
+
+    for where, fn, kind in runtime_functions():
+        k2 = kind
+        if where.startswith("controls.py:"):
+            cname = where.split(":", 1)[1].split(".")[0]
+            if cname in action_family:
+                k2 = "action"
+            if fn.name in CONTROL_DEF_METHODS:
+                continue
+        scan(fn, where, k2)
+    # element / container-class methods the simulators call (same name-based closure as sim_write_tables, step 4)
+    called = set()
+    for where, fn, kind in runtime_functions():
+        for n in ast.walk(fn):
+            if isinstance(n, ast.Attribute):
+                called.add(n.attr)
+    et, bt = _parse("wntr/network/elements.py"), _parse("wntr/network/base.py")
+    bases = dict(_class_bases(et))
+    bases.update(_class_bases(bt))
+    skip = ("add_leak", "remove_leak", "add_outage", "remove_outage", "add_demand", "add_fire_fighting_demand", "remove_fire_fighting_demand")
+    for tree, rel in ((et, "elements.py"), (bt, "base.py")):
+        for q, n, c in _functions_of(tree):
+            if c is None or n.name not in called or n.name.startswith("__") or n.name in skip:
+                continue
+            if any(isinstance(d, ast.Attribute) and d.attr == "setter" for d in n.decorator_list):
+                continue
+            conc = [k for k in ELEMENT_CLASSES if _derives(bases, k, c)] or ([c] if c in ("Pattern", "Curve", "Source") else [])
+            if conc:
+                scan(n, "%s:%s" % (rel, q), "element", conc)
+    return out
+
+
+def rule_name_facts():
+    """(assigned value text, is it exactly the registry key under `name == ''`, does io.to_dict substitute the key for an empty name, evidence)"""
+    ev = []
+    vals, ok = [], True
+    for where, fn in inp_writer_functions():
+        for loop in ast.walk(fn):
+            if not isinstance(loop, ast.For):
+                continue
+            for m in ast.walk(loop):
+                if isinstance(m, ast.Assign) and any(isinstance(t, ast.Attribute) and t.attr == "_name" for t in m.targets):
+                    tgt = [t for t in m.targets if isinstance(t, ast.Attribute) and t.attr == "_name"][0]
+                    vals.append(ast.unparse(m.value))
+                    good = False
+                    it = loop.iter
+                    keyvar = objvar = None
+                    if isinstance(loop.target, ast.Tuple) and len(loop.target.elts) == 2 and all(isinstance(e, ast.Name) for e in loop.target.elts) \
+                            and isinstance(it, ast.Call) and isinstance(it.func, ast.Attribute) and it.func.attr in ("controls", "items"):
+                        keyvar, objvar = loop.target.elts[0].id, loop.target.elts[1].id
+                    if keyvar and isinstance(m.value, ast.Name) and m.value.id == keyvar and isinstance(tgt.value, ast.Name) and tgt.value.id == objvar:
+                        # guard: innermost enclosing `if <obj>.name == ''`
+                        for g in ast.walk(loop):
+                            if isinstance(g, ast.If) and any(x is m for x in g.body):
+                                t_ = g.test
+                                if (isinstance(t_, ast.Compare) and len(t_.ops) == 1 and isinstance(t_.ops[0], ast.Eq)
+                                        and ast.unparse(t_.left) in (objvar + ".name", objvar + "._name")
+                                        and isinstance(t_.comparators[0], ast.Constant) and t_.comparators[0].value == ""):
+                                    good = True
+                    ok = ok and good
+                    ev.append("%s:%d `%s` in `for %s in %s`%s" % (where, m.lineno, ast.unparse(m), ast.unparse(loop.target), ast.unparse(loop.iter)[:40],
+                                                                  "" if good else " -- NOT the plain registry key under `name == ''`"))
+    if not vals:
+        return "", True, None, ["the INP writer closure no longer assigns ._name"]
+    # io.to_dict: `for k, c in wn._controls.items(): cc = c.to_dict(); if "name" in cc.keys() and not cc["name"]: cc["name"] = k`
+    t = _parse("wntr/network/io.py")
+    f = [n for q, n, c in _functions_of(t) if q == "to_dict"]
+    sub = False
+    if f:
+        src = _read_src("wntr/network/io.py").splitlines()
+        for loop in ast.walk(f[0]):
+            if isinstance(loop, ast.For) and isinstance(loop.target, ast.Tuple) and len(loop.target.elts) == 2 \
+                    and isinstance(loop.iter, ast.Call) and isinstance(loop.iter.func, ast.Attribute) and loop.iter.func.attr == "items" \
+                    and "_controls" in ast.unparse(loop.iter.func.value):
+                k = loop.target.elts[0].id
+                for g in ast.walk(loop):
+                    if isinstance(g, ast.If):
+                        nots = [x for x in ast.walk(g.test) if isinstance(x, ast.UnaryOp) and isinstance(x.op, ast.Not) and isinstance(x.operand, ast.Subscript)
+                                and isinstance(x.operand.slice, ast.Constant) and x.operand.slice.value == "name"]
+                        sets = [x for x in g.body if isinstance(x, ast.Assign) and isinstance(x.targets[0], ast.Subscript)
+                                and isinstance(x.targets[0].slice, ast.Constant) and x.targets[0].slice.value == "name"
+                                and isinstance(x.value, ast.Name) and x.value.id == k]
+                        if nots and sets:
+                            sub = True
+                            ev.append("network/io.py:%d `%s` / `%s`" % (g.lineno, src[g.lineno - 1].strip(), src[sets[0].lineno - 1].strip()))
+    return " | ".join(sorted(set(vals))), ok, sub, ev
+
+
 # =================================================================================================== Lean output
 
 
@@ -2299,6 +2552,19 @@ def gen_lean(tabs):
             "def inpfileUnitsAlwaysPassed : Bool := %s" % ("true" if tabs["inpfileUnitsAlwaysPassed"] else "false"),
             "/-- loads of `.name` / `._name` on rule / control objects in the run-time closures: (function, purpose) -/",
             "def ruleNameReaders : List (String × String) := [%s]" % ", ".join("(%s, %s)" % (_ls(a), _ls(b)) for a, b in tabs["ruleNameReaders"])]
+    for sl in tabs["mutatedInPlace"]:
+        out.append(("-- mutatedInPlace %s.%s: %s" % (sl[0], sl[1], "; ".join(tabs["mutatedInPlaceWhy"]["%s.%s" % sl][:4])))[:500])
+    out += _lean_list("mutatedInPlace",
+                      "storage slots holding a container that the run-time closure of either simulator mutates IN PLACE (method calls like "
+                      ".sort/.append/.add, subscript stores, augmented assignments, out=) -- not visible to the assignment tables", tabs["mutatedInPlace"])
+    for line in tabs["ruleNameEvidence"]:
+        out.append(("-- ruleName: " + line)[:400])
+    out += ["/-- normalised source text of what the INP writer assigns to a rule's ._name -/",
+            "def ruleNameAssignedValue : String := %s" % _ls(tabs["ruleNameAssignedValue"]),
+            "/-- that value is exactly the loop variable bound to the registry KEY, untransformed, and the assignment is guarded by `name == ''` -/",
+            "def ruleNameAssignedIsRegistryKey : Bool := %s" % ("true" if tabs["ruleNameAssignedIsRegistryKey"] else "false"),
+            "/-- wntr/network/io.py to_dict replaces an empty control name by the registry key -/",
+            "def toDictSubstitutesKeyForEmptyName : Bool := %s" % ("true" if tabs["toDictSubstitutesKeyForEmptyName"] else "false")]
     out.append("end Wntr.Frame.Gen")
     return "\n".join(out) + "\n"
 
@@ -2318,6 +2584,8 @@ def build_tables():
     not_reset = [x for x in sorted(written) if x not in set(RS.slots)]
     IR = inp_writer_reads(wntr, inst, R)
     BF = backtrack_facts(wntr, inst, R)
+    MIP = in_place_mutations(wntr, inst, R)
+    rn_val, rn_key, rn_sub, rn_ev = rule_name_facts()
     iu, iu_ev = inpfile_units_fact()
     rnr = rule_name_readers(wntr, inst, R)
     nrbw_ev = (["notReadBeforeWrite: computed attribute names (getattr(obj, <computed>) in conditions / change tracker) are taken from %s" % vocab]
@@ -2329,6 +2597,9 @@ def build_tables():
         "notReadBeforeWrite": nrbw, "nrbwEvidence": nrbw_ev, "writtenByEpanet": sorted(E.slots),
         "nrbwDecisions": {"%s.%s" % k: list(v) for k, v in decisions.items()},
         "inpWriterReads": sorted(IR),
+        "mutatedInPlace": sorted(MIP), "mutatedInPlaceWhy": {"%s.%s" % k: sorted(v) for k, v in MIP.items()},
+        "ruleNameAssignedValue": rn_val, "ruleNameAssignedIsRegistryKey": bool(rn_key), "toDictSubstitutesKeyForEmptyName": bool(rn_sub),
+        "ruleNameEvidence": rn_ev,
         "backtrack": BF, "inpfileUnitsAlwaysPassed": iu, "inpfileUnitsEvidence": iu_ev, "ruleNameReaders": rnr,
         "notes": ["ControlAction attribute -> private attribute: %s; attribute names in use: %s; internal attributes: %s"
                   % (json.dumps(mapping, sort_keys=True), attr_names, internal)] + notes
@@ -2511,7 +2782,28 @@ def gen_spec(rng, quick=True, wide=False, p_speed=0.12):
             hyd = net["options"]["hydraulic_timestep"]
             controls.append({"kind": "time", "time": hyd * rng.choice([1, 2]), "action": {"link": "PX", "attr": "status", "value": 1}})
     kind, over = vary_options(rng, net)
-    return {"net": net, "controls": controls, "opt_kind": kind, "opt_overrides": over, "edits": gen_edits(rng, net)}
+    sp = {"net": net, "controls": controls, "opt_kind": kind, "opt_overrides": over, "edits": gen_edits(rng, net)}
+    vc = {}
+    for nd in net["nodes"]:
+        if nd["type"] == "tank" and rng.random() < 0.35:
+            vc[nd["name"]] = volume_curve_rows(rng, nd)
+    if vc:
+        sp["vol_curves"] = vc
+    return sp
+
+
+def volume_curve_rows(rng, tank, disorder=None):
+    """a volume curve equal to the cylindrical tank (so hydraulics do not change), typed in with rows out of order / duplicated in
+    the part ABOVE max_level (never reached): [[level, volume], ...]"""
+    area = math.pi / 4.0 * tank["diameter"] ** 2
+    top = tank["max_level"]
+    levels = [0.0, round(top / 3.0, 2), round(2 * top / 3.0, 2), top, top + 5.0, top + 10.0, top + 15.0]
+    disorder = disorder or rng.choice(["swap-top", "swap-top", "duplicate-top", "sorted"])
+    if disorder == "swap-top":
+        levels[-1], levels[-2] = levels[-2], levels[-1]
+    elif disorder == "duplicate-top":
+        levels = levels[:-1] + [levels[-1], levels[-2]]
+    return [[l, area * l] for l in levels]
 
 
 def gen_edits(rng, net, force=None):
@@ -2669,6 +2961,19 @@ def scenario_specs(rng):
     net["options"]["report_timestep"] = "ALL"
     out.append(("reservoir-leak-status-action", {"net": net, "controls": [{"kind": "time", "time": hyd // 2,
                                                                           "action": {"node": "R0", "attr": "leak_status", "value": True}}]}))
+    # a tank whose volume curve was typed in with its top rows out of order (add_curve keeps the order); >= 2 hydraulic steps
+    net = _small_net(pump=rng.choice(["POWER", "HEAD"]), valve=None, steps=3)
+    out.append(("tank-volume-curve-unsorted", {"net": net, "controls": [], "vol_curves": {"T1": volume_curve_rows(rng, net["nodes"][1], rng.choice(["swap-top", "duplicate-top"]))}}))
+    # nameless rules under long registry keys: the outage rule of a pump with a 29-character name ('<name>_outage', 36 chars) and a
+    # rule added under a 40-character key with name=None
+    net = _small_net(pump="POWER", valve=None, steps=3)
+    long_pump = "booster_station_north_pump_02"
+    for l in net["links"]:
+        if l["name"] == "PW1":
+            l["name"] = long_pump
+    ctr = [{"kind": "rule", "key": "close_bypass_when_pressure_high_rule_no_0001"[:40], "cond": {"t": "simtime", "op": ">=", "thr": 2 * hyd},
+            "then": [{"link": "P5", "attr": "status", "value": 0}], "else": [], "priority": 3, "name": ""}]
+    out.append(("nameless-rules-long-keys", {"net": net, "controls": ctr, "outages": [{"pump": long_pump, "start": hyd, "end": 2 * hyd}]}))
     # daily repeating time controls in a run longer than one day (the second occurrence is threshold + 24 h)
     net = _small_net(pump="POWER", valve=None, steps=27)
     ctr = [{"kind": "time", "time": hyd * 1, "repeat": True, "action": {"link": "P5", "attr": "status", "value": 0}},
@@ -2739,6 +3044,12 @@ def build_model(wntr, spec, fresh=True):
             return ctl.OrCondition(mk_cond(c["a"]), mk_cond(c["b"]))
         raise ValueError(t)
 
+    for tname, pts in (spec.get("vol_curves") or {}).items():
+        # the curve is stored exactly as given (add_curve / Curve.__init__ keep the order; only the Curve.points SETTER sorts)
+        wn.add_curve("vol_" + tname, "VOLUME", [tuple(p_) for p_ in pts])
+        wn.get_node(tname).vol_curve_name = "vol_" + tname
+    for o_ in spec.get("outages") or []:
+        wn.get_link(o_["pump"]).add_outage(wn, o_["start"], o_.get("end"))
     for i, c in enumerate(spec.get("controls", [])):
         if c["kind"] == "time":
             ctrl = ctl.Control._time_control(wn, c["time"], "SIM_TIME", bool(c.get("repeat", False)), mk_action(c["action"]))
@@ -2747,7 +3058,7 @@ def build_model(wntr, spec, fresh=True):
         else:
             ctrl = ctl.Rule(mk_cond(c["cond"]), [mk_action(a) for a in c["then"]], [mk_action(a) for a in c["else"]],
                             priority=c["priority"], name=(c["name"] or None))
-        wn.add_control("ctl%d" % i, ctrl)
+        wn.add_control(c.get("key") or "ctl%d" % i, ctrl)
     if not fresh:
         wn.reset_initial_values()
     return wn
@@ -3118,6 +3429,73 @@ class WriteTrace:
         return False
 
 
+def _canon(v, depth=0):
+    """canonical, comparable form of a container value; model objects / simulator objects are replaced by their type (and name)"""
+    import enum
+    import numpy as np
+
+    if v is None or isinstance(v, (str, bool, int)) and not isinstance(v, enum.Enum):
+        return v
+    if isinstance(v, (float, np.floating)):
+        return "NaN" if v != v else float(v)
+    if isinstance(v, (np.integer,)):
+        return int(v)
+    if isinstance(v, enum.Enum):
+        return "%s.%s" % (type(v).__name__, v.name)
+    if depth > 6:
+        return "<deep>"
+    if isinstance(v, np.ndarray):
+        return [_canon(x, depth + 1) for x in v.tolist()]
+    if isinstance(v, dict):
+        return {str(_canon(k, depth + 1)): _canon(x, depth + 1) for k, x in v.items()}
+    if isinstance(v, (list, tuple)):
+        return [_canon(x, depth + 1) for x in v]
+    if isinstance(v, (set, frozenset)):
+        return sorted((json.dumps(_canon(x, depth + 1), sort_keys=True, default=str) for x in v))
+    nm = getattr(v, "_name", None) or getattr(v, "_link_name", None)
+    if type(v).__name__ == "TimeSeries":
+        return {"<TimeSeries>": [_canon(getattr(v, "_base", None)), _canon(getattr(v, "_pattern", None)), _canon(getattr(v, "_category", None))]}
+    if type(v).__name__ in ("OrderedSet", "Demands") or (hasattr(v, "__iter__") and hasattr(v, "__len__") and not hasattr(v, "keys")
+                                                         and type(v).__module__.startswith("wntr.utils")):
+        return [_canon(x, depth + 1) for x in v]
+    return "<%s%s>" % (type(v).__name__, (" " + str(nm)) if isinstance(nm, str) else "")
+
+
+def container_snapshot(trace_owned, wn):
+    """{(cls, field): canonical content of every container-valued entry of the __dict__ of every model-owned object} + the registries'
+    key lists and usage tables: in-place mutation (list.sort, dict update, set add ...) does not go through __setattr__"""
+    import numpy as np
+
+    snap = {}
+    shared = set(id(getattr(wn, rn, None)) for rn in ("_node_reg", "_link_reg", "_curve_reg", "_pattern_reg", "_controls", "_sources", "_options"))
+    for (cls, prefix, o) in trace_owned.values():
+        try:
+            items = list(vars(o).items())
+        except TypeError:
+            continue
+        for f, v in items:
+            if isinstance(v, (list, tuple, dict, set, frozenset, np.ndarray)) or type(v).__name__ in ("OrderedSet", "Demands"):
+                if id(v) in shared or (type(v).__module__.startswith("wntr.network") and type(v).__name__.endswith(("Registry", "Options"))):
+                    continue
+                key = (cls, prefix + f)
+                snap.setdefault(key, []).append(json.dumps(_canon(v), sort_keys=True, default=str))
+    for rn in ("_node_reg", "_link_reg", "_curve_reg", "_pattern_reg", "_controls", "_sources"):
+        reg = getattr(wn, rn, None)
+        if reg is None:
+            continue
+        try:
+            keys = list(reg.keys())
+            usage = {str(k): sorted(str(x) for x in (u or [])) for k, u in getattr(reg, "_usage", {}).items()}
+        except Exception:
+            continue
+        snap[("WaterNetworkModel", rn)] = [json.dumps({"keys": [str(k) for k in keys], "usage": usage}, sort_keys=True)]
+    return snap
+
+
+def snapshot_changes(a, b):
+    return sorted(k for k in set(a) | set(b) if a.get(k) != b.get(k))
+
+
 class ReadTrace(WriteTrace):
     """records which STORAGE fields (entries of the instance __dict__) of model-owned objects are read while active
     (used around one wn.to_dict() call to cross-check Gen.toDictReads, whose entries come from ast of the property getters)"""
@@ -3321,6 +3699,8 @@ class Judge:
             self.inp_by_cls.setdefault(c, set()).add(f)
         self.uncovered_inp_reads = {}
         self.nmodels = 0
+        self.mutated = set(tabs.get("mutatedInPlace", []))
+        self.uncovered_mut = {}
         self.uncovered = {}  # slot -> where (tie d)
         self.uncovered_reads = {}
         self.reads_by_cls = {}
@@ -3338,8 +3718,11 @@ class Judge:
         if not trace:
             return run_wntr(self.wntr, wn, spec["net"].get("hw_approx", "default"))
         with WriteTrace(self.wntr, wn) as tr:
+            s0 = container_snapshot(tr.owned, wn)
             out = run_wntr(self.wntr, wn, spec["net"].get("hw_approx", "default"))
+            s1 = container_snapshot(tr.owned, wn)
         self._cover(tr, "WNTRSimulator")
+        self._cover_snapshot(s0, s1, "WNTRSimulator")
         return out
 
     def _cover(self, tr, simname):
@@ -3349,12 +3732,24 @@ class Judge:
             if slot not in allowed:
                 self.uncovered.setdefault(slot, "%s: %s" % (simname, where))
 
+    def _cover_snapshot(self, s0, s1, simname):
+        """container-valued slots whose CONTENT changed during the run must be assigned slots (Gen.written) or flagged in-place mutations
+        (Gen.mutatedInPlace)"""
+        allowed = (self.written_epanet if simname == "EpanetSimulator" else self.written) | self.mutated
+        for slot in snapshot_changes(s0, s1):
+            self.count("content-changed:%s.%s" % slot)
+            if slot not in allowed and not any(slot[0] == a[0] and (slot[1].startswith(a[1] + ".") or a[1].startswith(slot[1] + ".")) for a in allowed):
+                self.uncovered_mut.setdefault(slot, simname)
+
     def _epanet(self, wn, trace=True):
         prefix = os.path.join(self.tmpdir, "ep")
         if trace:
             with WriteTrace(self.wntr, wn) as tr:
+                s0 = container_snapshot(tr.owned, wn)
                 out = run_epanet(self.wntr, wn, prefix)
+                s1 = container_snapshot(tr.owned, wn)
             self._cover(tr, "EpanetSimulator")
+            self._cover_snapshot(s0, s1, "EpanetSimulator")
         else:
             out = run_epanet(self.wntr, wn, prefix)
         for f in os.listdir(self.tmpdir):
@@ -3809,6 +4204,8 @@ class C11(Check):
         ctx.cov["overlap_writtenByEpanet_toDictReads"] = ["%s.%s" % x for x in overlap(tabs["writtenByEpanet"], tabs["toDictReads"])]
         ctx.cov["tables"]["inpWriterReads"] = len(tabs["inpWriterReads"])
         ctx.cov["overlap_written_inpWriterReads"] = ["%s.%s" % x for x in overlap(w, tabs["inpWriterReads"])]
+        ctx.cov["mutatedInPlace"] = tabs["mutatedInPlaceWhy"]
+        ctx.cov["ruleName"] = [tabs["ruleNameAssignedValue"], tabs["ruleNameAssignedIsRegistryKey"], tabs["toDictSubstitutesKeyForEmptyName"]]
         ctx.cov["backtrack_facts"] = {k: v for k, v in tabs["backtrack"].items()}
         ctx.cov["inpfileUnitsAlwaysPassed"] = tabs["inpfileUnitsAlwaysPassed"]
         ctx.cov["ruleNameReaders"] = tabs["ruleNameReaders"]
@@ -3826,6 +4223,14 @@ class C11(Check):
             where = {("%s.%s" % s): tabs["where"]["written"].get("%s.%s" % s, [])[:3] for s in ov}
             broken.append(Broken("proof", "Gen.written ∩ Gen.toDictReads grew",
                                  "slots a run can assign that to_dict reads: %s" % json.dumps(where, sort_keys=True)))
+        mo = overlap(tabs["mutatedInPlace"], tabs["toDictReads"])
+        if mo:
+            broken.append(Broken("proof", "Gen.mutatedInPlace ∩ Gen.toDictReads is not empty",
+                                 "a simulator run mutates in place a container that to_dict reads: %s"
+                                 % {("%s.%s" % x): tabs["mutatedInPlaceWhy"]["%s.%s" % x][:3] for x in mo}))
+        if not tabs["ruleNameAssignedIsRegistryKey"] or not tabs["toDictSubstitutesKeyForEmptyName"]:
+            broken.append(Broken("proof", "Rule._name: the INP writer no longer assigns exactly the registry key to a nameless rule (or to_dict no longer "
+                                 "substitutes the key)", "; ".join(tabs["ruleNameEvidence"])))
         bf = tabs["backtrack"]
         kd = dict(bf["kinds"])
         ok_kinds = ("assignsAllPaths", "neverAssigns")
@@ -3932,6 +4337,10 @@ class C11(Check):
             tab = "Gen.writtenByEpanet" if where.startswith("EpanetSimulator") else "Gen.written"
             broken.append(Broken("correspondence", "C11 write trace not covered by " + tab,
                                  "run-time assignment to slot %s.%s observed at %s; %s does not list it" % (slot[0], slot[1], where, tab)))
+        for slot, where in sorted(J.uncovered_mut.items()):
+            broken.append(Broken("correspondence", "in-place mutation of %s.%s not covered by Gen.written / Gen.mutatedInPlace" % slot,
+                                 "the content of the container held by slot %s.%s changed during a %s run although no assignment to it was "
+                                 "observed and the translator flags no in-place mutator for it" % (slot[0], slot[1], where)))
         for slot, where in sorted(J.uncovered_inp_reads.items()):
             broken.append(Broken("correspondence", "C11 INP writer read trace not covered by Gen.inpWriterReads",
                                  "%s; slot %s.%s is not in the static table (nor a path above / below it)" % (where, slot[0], slot[1])))
